@@ -124,6 +124,9 @@ def classify(prog, o):
     b = o["raw"].get("files", {}).get("test_something.py", "")
     if "HasRepr(" in b and b.replace("\nfrom inline_snapshot import HasRepr\n", "", 1) == a:
         return "F-06"
+    # F-48: the corpus project ODD (literals whose generated text black normalises back): run_inline reports an update the sessions hide
+    if prog.get("odd") and a == b and set(o["inline"].get("categories") or []) - {"update"} == set(cats_from_report(o["raw"].get("stdout", ""))):
+        return "F-48"
     return None
 
 
@@ -144,6 +147,11 @@ def run(ctx: Ctx):
                "def test_3():\n    raise ValueError('boom')\n\n\ndef test_4():\n    for x in (1, 2):\n        assert x <= snapshot(5)\n")
     for fl in ((), ("trim",), ("create",), ("trim", "update")):
         progs.append({"source": RAISING, "files": {"test_something.py": RAISING}, "flags": fl, "sites": [1, 2, 3], "rich": False})
+    # values whose generated text differs from the hand-written text only in ways the tokens / formatter normalise
+    ODD = ("from inline_snapshot import snapshot\n\n\ndef test_1():\n    assert 1e16 == snapshot(1e16)\n    assert {(1,)} == snapshot({(1,)})\n"
+           "    assert \"a'b\\\"c\" == snapshot(\"a'b\\\"c\")\n    assert [(2,)] == snapshot([(2,)])\n    assert 0x10 == snapshot(16)\n")
+    for fl in ((), ("update",), ("fix", "update")):
+        progs.append({"source": ODD, "files": {"test_something.py": ODD}, "flags": fl, "sites": [1, 2, 3], "rich": False, "odd": True})
     outs = pmap(run_all, progs, procs=12, chunksize=1)
     terms = []
     for p, o in zip(progs, outs):
